@@ -1,17 +1,14 @@
 #!/bin/bash
-# selftest/all.sh — the must-fail corpus: every seeded change and every mutant must be reported as a VIOLATION by
-# the check of the property it breaks (a mutant that passes means the checker has lost its teeth).
+# selftest/all.sh — the must-fail corpus: every seeded change (seeded/<id>-<n>/patch.diff) and every mutant
+# (selftest/mutants/<id>_*.diff) must be reported as a VIOLATION by the check of the property it breaks
+# (a mutant that passes means the checker has lost its teeth).  Runs on scratch copies; /repo is not touched.
 cd /verif
-declare -A map=(
- [seeded/C01-1/patch.diff]="C01" [seeded/C02-1/patch.diff]="C02" [seeded/C04-1/patch.diff]="C04" [seeded/C05-1/patch.diff]="C05"
- [seeded/C06-1/patch.diff]="C06" [seeded/C07-1/patch.diff]="C07" [seeded/C08-1/patch.diff]="C08" [seeded/C09-1/patch.diff]="C09"
- [seeded/C10-1/patch.diff]="C10" [seeded/C11-1/patch.diff]="C11" [seeded/C12-1/patch.diff]="C12" [seeded/C13-1/patch.diff]="C13"
- [seeded/C14-1/patch.diff]="C14" [seeded/C15-1/patch.diff]="C15" [seeded/C17-1/patch.diff]="C17" [seeded/C18-1/patch.diff]="C18"
-)
+declare -A map=()
+for f in seeded/*/patch.diff; do p=$(basename $(dirname $f) | cut -d- -f1); map[$f]="$p"; done
 for f in selftest/mutants/*.diff; do p=$(basename $f | cut -d_ -f1); map[$f]="$p"; done
 fail=0
 for f in $(echo "${!map[@]}" | tr ' ' '\n' | sort); do
   out=$(selftest/run.sh "$f" ${map[$f]} 2>&1)
-  if echo "$out" | grep -q "^CAUGHT"; then echo "CAUGHT  ${map[$f]}  $f  ($(echo "$out" | grep -c '^VIOLATION') obligations$(echo "$out" | grep -q 'no-failing-input-found' && echo ', some without concrete input'))"; else echo "MISSED  ${map[$f]}  $f"; echo "$out" | tail -3 | sed 's/^/        /'; fail=1; fi
+  if echo "$out" | grep -q "^CAUGHT"; then echo "CAUGHT  ${map[$f]}  $f  ($(echo "$out" | grep -c '^VIOLATION') obligations$(echo "$out" | grep -q 'no-failing-input-found' && echo ', some without concrete input'))"; echo "$out" | grep '^VIOLATION' | sed -E 's/.*obligation=([^ ]+).*/        \1/' | sort -u | head -6; else echo "MISSED  ${map[$f]}  $f"; echo "$out" | tail -3 | sed 's/^/        /'; fail=1; fi
 done
 exit $fail
